@@ -346,6 +346,17 @@ def run_numjac(task):
         Config.config.update(defaults)
 
 
+def run_numjac_seq(task):
+    """several integrators one after another in ONE interpreter (e.g. the same system with its entries listed in
+    another order): run_numjac on each; reports the worst"""
+    outs = [run_numjac(dict(task, indict=ind)) for ind in task["indicts"]]
+    oks = [o for o in outs if o.get("outcome") == "Ok"]
+    if not oks:
+        return outs[0]
+    k = max(range(len(outs)), key=lambda i: outs[i].get("worst", -1.0) if outs[i].get("outcome") == "Ok" else -1.0)
+    return dict(outs[k], position=k, outcomes=[o.get("outcome") for o in outs])
+
+
 def run_c01(task):
     """analysis() under an alarm; exact evaluation of the analytic update expressions with every
     propagator symbol bound to an independent rational; numerical probe of the flow property."""
@@ -396,7 +407,8 @@ def run_c01(task):
         rng = random.Random(task.get("pseed", 1))
         subs = {sympy.Symbol(k): _rat(v) for k, v in task["point"].items()}
         hval = Fraction(rng.randint(1, 9), rng.choice([2, 3, 5, 7]))
-        subs[sympy.Symbol("__h")] = _rat(hval)
+        hsym = (task["indict"].get("options") or {}).get("output_timestep_symbol", "__h")
+        subs[sympy.Symbol(hsym)] = _rat(hval)
         pvals = {}
         for key in sorted(ana["propagators"]):
             pvals[key] = Fraction(rng.randint(-9, 9) or 4, rng.choice([2, 3, 5, 7, 11]))
@@ -459,7 +471,7 @@ def _flow_probe(indict, ana, seed):
     detail = None
     props = {k: sympy.parsing.sympy_parser.parse_expr(v, global_dict=dict(ns)) for k, v in ana["propagators"].items()}
     upd = {k: sympy.parsing.sympy_parser.parse_expr(v, global_dict=dict(ns)) for k, v in ana["update_expressions"].items()}
-    hs = sympy.Symbol("__h")
+    hs = sympy.Symbol((indict.get("options") or {}).get("output_timestep_symbol", "__h"))
 
     def step(xv, hv, pv):
         sub = dict(pv)
